@@ -102,6 +102,15 @@ def units(rng, tier):
             srt = rng.random() < 0.4
             seq.append([sorted(sv) if srt else sv, 1 if srt else 0, rng.choice(["list", "tuple", "array"])])
         us.append(U("objective_history", {"o": o, "ok": ok, "seq": seq, "sums": seq[0][0]}, "one-object-many-vectors", cmp=None))
+    # ... and ONE weighted-objective object, its weights handed over as a list, a tuple or a numpy array, evaluated several times
+    # (a weight vector that is consumed, converted lazily or normalised in place by the first evaluation shows at the second)
+    for _ in range(150 if tier == "quick" else 1500):
+        n = rng.randint(1, 5)
+        sc = rng.choice([1, 1, 2, 4])
+        w = [rng.randint(1, 9) for _ in range(n)]
+        seq = [[[rng.randint(0, 40) for _ in range(n)], 0, rng.choice(["list", "tuple", "array"])] for _j in range(rng.randint(2, 5))]
+        us.append(U("objective_history", {"weights": w, "wscale": sc, "wkind": rng.choice(["list", "tuple", "array", "array"]), "seq": seq, "sums": seq[0][0]},
+                    "one-weighted-object-many-vectors", cmp=None))
     # the same, with ONE mutable vector (list or numpy array) updated in place between the evaluations, as a search that keeps running sums does
     for _ in range(300 if tier == "quick" else 3000):
         o = rng.choice([0, 1, 2, 3, 3, 4, 4, 4])
@@ -123,6 +132,15 @@ def judge_requests(u, impl, model):
         if "exc" in impl:
             return [("py", None, f"objective history raised {impl['exc']}")]
         js = []
+        if "weights" in p:
+            for j, ((sums, srt, kind), got) in enumerate(zip(p["seq"], impl["values"])):
+                m = min(Fraction(sv * p.get("wscale", 1), w) for sv, w in zip(sums, p["weights"]))
+                exp = -(m.numerator / m.denominator)
+                if not (isinstance(got, str) and not got.startswith("exc:") and float.fromhex(got) == exp):
+                    js.append(("py", None, f"weighted objective (weights {p['weights']}/{p.get('wscale', 1)} given as {p.get('wkind')}): evaluation #{j} of ONE objective object, on sums {sums}, "
+                                           f"returned {got if isinstance(got, str) and got.startswith('exc:') else float.fromhex(got)}; the documented value is {exp}"))
+                    break
+            return js
         for j, ((sums, srt, kind), got) in enumerate(zip(p["seq"], impl["values"])):
             js.append(("value", [p["o"], p["ok"], sums, srt],
                        lambda r, j=j, sums=sums, got=got: None if r == got else f"objective {UN.OBJ_NAMES[p['o']]}(k={p['ok']}): evaluation #{j} of ONE objective object, on sums {sums}, returned {got}; the documented value is {r} (vectors evaluated before it: {[q[0] for q in p['seq'][:j]]})"))
